@@ -12,7 +12,7 @@ StringTokenizer::StringTokenizer(const std::string& s, const std::string& delimi
   splits_(),
   currentPosition_(0)
 {
-  if (!solid)
+  if (!solid || delimiters.empty())
   {
     string::size_type index = s.find_first_not_of(delimiters, 0);
     while (index != s.npos)
